@@ -79,17 +79,7 @@ Theorem C16_intersection_pixel_set :
     (forall j, in_rows u j <-> (forall p, In p ps -> in_rows p j)) ->
     (forall i j, in_pix u i j <-> (forall p, In p ps -> in_pix p i j)) /\
     ((pnx u = 0 \/ pny u = 0) <-> (forall i j, ~ in_pix u i j)).
-Proof.
-  intros u ps Hx Hy Hc Hr. split.
-  - intros i j. unfold in_pix. rewrite Hc, Hr. split.
-    + intros (A & B) p Hp. auto.
-    + intros H. split; intros p Hp; apply (H p Hp).
-  - unfold in_pix, in_cols, in_rows. split.
-    + intros [E | E] i j; lia.
-    + intros H. destruct (Z.eq_dec (pnx u) 0) as [E | E]; [auto|].
-      destruct (Z.eq_dec (pny u) 0) as [E' | E']; [auto|].
-      exfalso. apply (H (px u) (py u)). lia.
-Qed.
+Proof. exact intersection_pixel_set. Qed.
 Print Assumptions C16_intersection_pixel_set.
 
 (** ** commutativity and associativity, as equality of (shape, affine) *)
@@ -297,9 +287,7 @@ Theorem C16_binary_ops_rejected_iff :
     is_ok (gbox_and crs_eqb atol rtol tol a b) =
       is_ok (bbox_in_pix crs_eqb atol rtol tol a a) && is_ok (bbox_in_pix crs_eqb atol rtol tol b a) /\
     is_ok (overlap_roi crs_eqb fx atol rtol tol a b) = is_ok (bbox_in_pix crs_eqb atol rtol tol b a).
-Proof.
-  intros. split; [apply gbox_or_ok_bool|]. split; [apply gbox_and_ok_bool | apply overlap_roi_ok_bool].
-Qed.
+Proof. exact binary_ops_rejected_iff. Qed.
 Print Assumptions C16_binary_ops_rejected_iff.
 
 Theorem C16_self_compatible :
@@ -317,7 +305,7 @@ Theorem C16_bbox_commutative :
   forall (crs : Type) (crs_eqb : crs -> crs -> bool) (a b u v : bbox crs Q),
     (qbox_or crs_eqb a b = Ok u -> qbox_or crs_eqb b a = Ok v -> box_eq u v) /\
     (qbox_and crs_eqb a b = Ok u -> qbox_and crs_eqb b a = Ok v -> box_eq u v).
-Proof. intros. split; [apply qbox_or_comm | apply qbox_and_comm]. Qed.
+Proof. exact qbox_comm_both. Qed.
 Print Assumptions C16_bbox_commutative.
 
 Theorem C16_bbox_associative :
@@ -326,7 +314,7 @@ Theorem C16_bbox_associative :
      qbox_or crs_eqb b c = Ok bc -> qbox_or crs_eqb a bc = Ok r -> box_eq l r) /\
     (qbox_and crs_eqb a b = Ok ab -> qbox_and crs_eqb ab c = Ok l ->
      qbox_and crs_eqb b c = Ok bc -> qbox_and crs_eqb a bc = Ok r -> box_eq l r).
-Proof. intros. split; [apply qbox_or_assoc | apply qbox_and_assoc]. Qed.
+Proof. exact qbox_assoc_both. Qed.
 Print Assumptions C16_bbox_associative.
 
 Theorem C16_bbox_idempotent :
